@@ -688,75 +688,78 @@ fn pair_case(a: &MSet, b: &MSet) -> Value {
 }
 
 impl Engine {
-	/// One application of `d` to `target`: real code in lock-step with the reference. Returns the
-	/// real outcome of the canonical (sorted insertion order) run.
+	/// What one real outcome means against the reference: the outcome class and, if the statement is
+	/// broken, the key and description of the difference.
+	fn classify(real: &Real, expect: &mdiff::Expect, target: &MSet, outside: bool, lab: &str) -> (&'static str, Option<(String, String)>) {
+		match (real, &expect.result) {
+			(Real::Panicked(p), _) => ("panicked", Some((format!("apply:panic@{}", p.file()), format!("apply_to panicked at {}: {}", p.site, p.msg)))),
+			_ if outside => ("outside-statement", None),
+			(Real::KeyBroken(e), _) => ("key-broken", Some(("apply:key-invariant".to_owned(), format!("result of apply_to stores an entry under a key that is not its first name: {e}")))),
+			(Real::Ok(r), Some(e)) => {
+				if r == e {
+					(if r == target { "applied-no-change" } else if expect.may_refuse { "applied-where-refusal-allowed" } else { "applied" }, None)
+				} else {
+					let (k, what) = mapmodel::first_difference(e, r).unwrap_or(("other".into(), "differ".into()));
+					("wrong-result", Some((format!("apply:wrong-result:{k}"), format!("apply_to returned Ok with a set that is not what the diff says ({lab}): {what}"))))
+				}
+			},
+			(Real::Ok(_), None) => ("accepted-inconsistent", Some((format!("apply:accepted-inconsistent:{lab}"), format!("apply_to returned Ok for a diff that is inconsistent with the target and must be refused: {}", expect.reason)))),
+			(Real::Refused(_), None) => ("refused-inconsistent", None),
+			(Real::Refused(e), Some(_)) => {
+				if expect.may_refuse {
+					("refused-where-statement-is-silent", None)
+				} else {
+					("refused-consistent", Some((format!("apply:refused-consistent:{lab}"), format!("apply_to refused a diff that is consistent with the target: {e}"))))
+				}
+			},
+		}
+	}
+
+	/// One application of `d` to `target`: real code in lock-step with the reference, in two or three
+	/// insertion orders of target and diff (each run is judged against the reference, not against
+	/// the other runs). Returns the real outcome of the canonical (sorted insertion order) run.
 	fn judge_apply(&self, leg: &str, lab: &str, parts: &[Part], d: &MDiff, target: &MSet, qd_real: Option<&MappingsDiff>) -> Real {
 		let expect = mdiff::apply(d, target, 1);
 		// Removing the namespace itself with the right old name: the statement's "removals disappear"
 		// has no meaning for a namespace of a two-namespace set; only panics are judged there.
 		let outside = matches!(&d.info, Act::Remove(x) if x == &target.ns[1]);
-		let real = match qd_real {
-			Some(q) => real_apply_obj(q, target, Order::Sorted),
-			None => real_apply(d, target, Order::Sorted, Order::Sorted),
-		};
-		let replay = |extra: &str| {
-			format!("{}\n\nexpected: {}\nreal: {}\n{extra}", apply_case(target, d, leg, lab),
-				match &expect.result { Some(e) => format!("Ok {}{}", set_json(e), if expect.may_refuse { " (or a refusal: the statement is silent)" } else { "" }), None => format!("refusal ({})", expect.reason) },
-				real.render())
-		};
-		let mut executions = 1u64;
-		let outcome: &str = match (&real, &expect.result) {
-			(Real::Panicked(p), _) => {
-				self.ctx.diff(&format!("apply:panic@{}", p.file()), &format!("apply_to panicked at {}: {}", p.site, p.msg), || replay(""));
-				"panicked"
-			},
-			_ if outside => "outside-statement",
-			(Real::KeyBroken(e), _) => {
-				self.ctx.diff("apply:key-invariant", &format!("result of apply_to stores an entry under a key that is not its first name: {e}"), || replay(""));
-				"key-broken"
-			},
-			(Real::Ok(r), Some(e)) => {
-				if r == e {
-					if r == target { "applied-no-change" } else if expect.may_refuse { "applied-where-refusal-allowed" } else { "applied" }
-				} else {
-					let (k, what) = mapmodel::first_difference(e, r).unwrap_or(("other".into(), "differ".into()));
-					self.ctx.diff(&format!("apply:wrong-result:{k}"), &format!("apply_to returned Ok with a set that is not what the diff says ({lab}): {what}"), || replay(""));
-					"wrong-result"
-				}
-			},
-			(Real::Ok(_), None) => {
-				self.ctx.diff(&format!("apply:accepted-inconsistent:{lab}"), &format!("apply_to returned Ok for a diff that is inconsistent with the target and must be refused: {}", expect.reason), || replay(""));
-				"accepted-inconsistent"
-			},
-			(Real::Refused(_), None) => "refused-inconsistent",
-			(Real::Refused(e), Some(_)) => {
-				if expect.may_refuse {
-					"refused-where-statement-is-silent"
-				} else {
-					self.ctx.diff(&format!("apply:refused-consistent:{lab}"), &format!("apply_to refused a diff that is consistent with the target: {e}"), || replay(""));
-					"refused-consistent"
-				}
-			},
-		};
-		// insertion order of target and diff must not matter
-		let mut order_runs: Vec<(Order, Order)> = vec![(Order::Reversed, Order::Reversed)];
+		let mut runs: Vec<(Order, Order)> = vec![(Order::Sorted, Order::Sorted), (Order::Reversed, Order::Reversed)];
 		if parts.len() != 1 {
-			order_runs.push((Order::Sorted, Order::Reversed));
+			runs.push((Order::Sorted, Order::Reversed));
 		}
-		if !matches!(real, Real::Panicked(_)) {
-			for (ot, od) in order_runs {
-				let other = real_apply(d, target, ot, od);
-				executions += 1;
-				let same = match (&real, &other) {
-					(Real::Ok(a), Real::Ok(b)) => a == b,
-					(Real::Refused(_), Real::Refused(_)) => true,
-					(a, b) => a.class() == b.class(),
-				};
-				if !same {
-					self.ctx.diff("order:apply-result-depends-on-insertion-order", &format!("the same diff and target built in insertion order target={ot:?} diff={od:?} give a different result"), || replay(&format!("real with other insertion order: {}", other.render())));
-				}
+		let mut primary: Option<(Real, &'static str, Option<String>)> = None;
+		let mut executions = 0u64;
+		for (i, (ot, od)) in runs.into_iter().enumerate() {
+			let real = match (i, qd_real) {
+				(0, Some(q)) => real_apply_obj(q, target, ot),
+				_ => real_apply(d, target, ot, od),
+			};
+			executions += 1;
+			let (outcome, problem) = Self::classify(&real, &expect, target, outside, lab);
+			let replay = || {
+				format!("{}\n\ninsertion order: target {ot:?}, diff {od:?}\nexpected: {}\nreal: {}\n", apply_case(target, d, leg, lab),
+					match &expect.result { Some(e) => format!("Ok {}{}", set_json(e), if expect.may_refuse { " (or a refusal: the statement is silent)" } else { "" }), None => format!("refusal ({})", expect.reason) },
+					real.render())
+			};
+			match &primary {
+				None => {
+					if let Some((key, what)) = &problem {
+						self.ctx.diff(key, what, replay);
+					}
+					primary = Some((real, outcome, problem.map(|p| p.0)));
+				},
+				Some((_, _, pkey)) => {
+					// the same difference in another insertion order is the same difference; a
+					// difference that shows only in another order is reported as order-dependent
+					if let Some((key, what)) = &problem {
+						if pkey.as_ref() != Some(key) {
+							self.ctx.diff(&format!("order:{key}"), &format!("only with insertion order target={ot:?} diff={od:?}: {what}"), replay);
+						}
+					}
+				},
 			}
 		}
+		let (real, outcome, _) = primary.unwrap_or_else(|| vcore::machinery_fail("no run"));
 		self.tally.with(|st| {
 			st.evaluations += executions;
 			st.outcome(&format!("{leg}:{outcome}"));
@@ -818,7 +821,9 @@ impl Engine {
 			}
 			return;
 		}
-		let all_named = complete(a) && complete(b);
+		// diff must succeed where every target name is present and the diff language can say the change
+		let reference = mdiff::diff(a, b);
+		let must_succeed = complete(a) && complete(b) && reference.is_some();
 		let qd = match real_diff(a, b, Order::Sorted, Order::Sorted) {
 			Err(p) => {
 				self.ctx.diff(&format!("diff:panic@{}", p.file()), &format!("diff panicked at {}: {}", p.site, p.msg), || pair_case(a, b).to_string());
@@ -826,24 +831,26 @@ impl Engine {
 			},
 			Ok(r) => r,
 		};
-		// insertion order of the two sets must not matter for what the diff says
+		// the same law with A and B built in other insertion orders
 		st.eval();
 		match real_diff(a, b, Order::Reversed, Order::Rotated(1)) {
 			Err(p) => self.ctx.diff(&format!("diff:panic@{}", p.file()), &format!("diff panicked at {}: {}", p.site, p.msg), || pair_case(a, b).to_string()),
-			Ok(other) => {
-				let same = match (&qd, &other) {
-					(Ok(x), Ok(y)) => mapmodel::diff_from_quill(x) == mapmodel::diff_from_quill(y),
-					(Err(_), Err(_)) => true,
-					_ => false,
-				};
-				if !same {
-					self.ctx.diff("order:diff-depends-on-insertion-order", "diff(A,B) differs when A and B are built in another insertion order", || pair_case(a, b).to_string());
+			Ok(Err(e)) => {
+				if must_succeed {
+					self.ctx.diff("diff:refused-with-all-target-names", &format!("diff(A,B) refused although every entry of A and B has a target name (A, B built in another insertion order): {e}"), || pair_case(a, b).to_string());
 				}
+			},
+			Ok(Ok(q2)) => {
+				st.eval();
+				let got = real_apply_obj(&q2, a, Order::Reversed);
+				let extra = || format!("A built in reversed, B in rotated insertion order\ndiff(A,B) = {}", diff_json(&mapmodel::diff_from_quill(&q2)));
+				let o = self.judge_inverse("inverse", a, b, &got, &extra);
+				st.outcome(&format!("pair:reordered-{o}"));
 			},
 		}
 		match qd {
 			Err(e) => {
-				if all_named {
+				if must_succeed {
 					self.ctx.diff("diff:refused-with-all-target-names", &format!("diff(A,B) refused although every entry of A and B has a target name: {e}"), || pair_case(a, b).to_string());
 					st.outcome("pair:diff-refused-all-named");
 				} else {
@@ -901,7 +908,7 @@ impl Engine {
 			},
 		}
 		// the smallest diff (entries without change left out), by the reference diff; also the oracle's self-check
-		if let Some(rd) = mdiff::diff(a, b) {
+		if let Some(rd) = reference {
 			self.oracle_run.fetch_add(1, Ordering::Relaxed);
 			let e = mdiff::apply(&rd, a, 1);
 			if e.result.as_ref() == Some(b) && !e.may_refuse {
